@@ -615,6 +615,7 @@ DB = "nostr_relay/storage/db.py"
 VAL = "nostr_relay/validators.py"
 
 MUTANTS = [
+    M("c03-ok-for-auth", "nostr_relay/web.py", "                    throttle = await storage.authenticator.should_throttle(auth_token)\n", "                    throttle = await storage.authenticator.should_throttle(auth_token)\n                    await ws_send(json_dumps([\"OK\", message[1].get(\"id\", \"\"), True, \"\"]))\n", "C03.acksites"),
     M("c03-event-from-copy", "nostr_relay/storage/db.py", "            event = Event(**event_json)", "            event = Event(**{k: (v.strip() if isinstance(v, str) else v) for k, v in event_json.items()})", "C03.verbatim"),
 ] + [
     M("c03-" + m.id, m.rel, m.old, m.new, "C03.canonical", m.where, False, m.count) for m in __import__("sa.props.c04", fromlist=["MUTANTS"]).MUTANTS if m.expect == "C04.canonical"
